@@ -26,6 +26,7 @@ pub enum Req {
     S,  // well-formed but semantically invalid (dangling reference): the handler panics in the loader
     S2, // loads fine but makes the solver itself panic (absurd cost coefficient: overflow guard in the flow model)
     Vb, // valid solve, instance y written over a network of 460 further locations: a request body above 2 MiB
+    S3, // loads and solves, but panics while the answer is written (all activities on 0000-01-01, the first pull-out would leave before year 0)
 }
 
 impl Req {
@@ -39,6 +40,7 @@ impl Req {
             Req::S => "semantically-invalid",
             Req::S2 => "solver-panics",
             Req::Vb => "solve(big)",
+            Req::S3 => "answer-panics",
         }
     }
     fn from_name(s: &str) -> Option<Req> {
@@ -46,7 +48,7 @@ impl Req {
     }
 }
 
-const ALPHABET: [Req; 8] = [Req::H, Req::Vx, Req::Vy, Req::M, Req::W, Req::S, Req::S2, Req::Vb];
+const ALPHABET: [Req; 9] = [Req::H, Req::Vx, Req::Vy, Req::M, Req::W, Req::S, Req::S2, Req::Vb, Req::S3];
 
 /// prefix every identifier so that two instances share no id
 fn prefix_ids(v: &Value, p: &str, key: Option<&str>) -> Value {
@@ -67,6 +69,7 @@ pub struct Bodies {
     pub s: Value,
     pub s2: Value,
     pub big: Value,
+    pub s3: Value,
 }
 
 pub fn bodies() -> Bodies {
@@ -99,7 +102,21 @@ pub fn bodies() -> Bodies {
         }
     }
     assert!(big.to_string().len() > 2 * 1024 * 1024 + 4096);
-    Bodies { x, y, s, s2, big }
+    // instance y moved to 0000-01-01 with its trip from L1 at 00:10: the vehicle's pull-out from the depot at L0
+    // would depart in the year before 0, which the date arithmetic refuses while the answer is serialised -
+    // a failure after loading, flow and local search
+    let mut s3: Value = serde_json::from_str(&y.to_string().replace("2024-01-15T", "0000-01-01T").replace("2024-01-16T", "0000-01-02T")).unwrap();
+    for dep in s3["departures"].as_array_mut().unwrap() {
+        for seg in dep["segments"].as_array_mut().unwrap() {
+            if seg["departure"] == json!("0000-01-01T09:10:00") {
+                seg["departure"] = json!("0000-01-01T00:10:00");
+            }
+        }
+    }
+    if let Some(ms) = s3.get_mut("maintenanceSlots").and_then(|m| m.as_array_mut()) {
+        ms.clear();
+    }
+    Bodies { x, y, s, s2, big, s3 }
 }
 
 pub struct Server {
@@ -305,6 +322,10 @@ fn send(port: u16, b: &Bodies, r: Req, gate: Option<&str>) -> (Result<Resp, Stri
             let body = with_gate(&b.s2);
             (request(port, "POST", "/solve", Some("application/json"), Some(&body.to_string()), t), None)
         }
+        Req::S3 => {
+            let body = with_gate(&b.s3);
+            (request(port, "POST", "/solve", Some("application/json"), Some(&body.to_string()), t), None)
+        }
     }
 }
 
@@ -320,7 +341,7 @@ fn judge(r: Req, resp: &Result<Resp, String>, input: &Option<Value>) -> Vec<Stri
             Ok(x) if (400..500).contains(&x.status) => vec![],
             other => vec![format!("{} request must get a 4xx answer, got {:?}", r.name(), other.as_ref().map(|x| x.status))],
         },
-        Req::S | Req::S2 => match resp {
+        Req::S | Req::S2 | Req::S3 => match resp {
             Ok(x) if x.status >= 400 => vec![],
             Err(_) => vec![], // closed connection
             Ok(x) => vec![format!("{} request answered with status {}", r.name(), x.status)],
@@ -374,7 +395,7 @@ pub enum Ev {
 
 /// all orders of enter_i / exit_i consistent with program order; a panicking request has no exit
 fn interleavings(reqs: &[Req]) -> Vec<Vec<Ev>> {
-    let per: Vec<Vec<Ev>> = reqs.iter().enumerate().map(|(i, r)| if matches!(r, Req::S | Req::S2) { vec![Ev::Enter(i)] } else { vec![Ev::Enter(i), Ev::Exit(i)] }).collect();
+    let per: Vec<Vec<Ev>> = reqs.iter().enumerate().map(|(i, r)| if matches!(r, Req::S | Req::S2 | Req::S3) { vec![Ev::Enter(i)] } else { vec![Ev::Enter(i), Ev::Exit(i)] }).collect();
     let mut out = vec![];
     fn rec(per: &Vec<Vec<Ev>>, pos: &mut Vec<usize>, cur: &mut Vec<Ev>, out: &mut Vec<Vec<Ev>>) {
         if pos.iter().zip(per.iter()).all(|(p, v)| *p == v.len()) {
@@ -468,7 +489,7 @@ fn run_interleaving(b: &Bodies, reqs: &[Req], order: &[Ev]) -> Result<Vec<String
 }
 
 fn multisets(n: usize) -> Vec<Vec<Req>> {
-    let kinds = [Req::Vx, Req::Vy, Req::S, Req::S2];
+    let kinds = [Req::Vx, Req::Vy, Req::S, Req::S2, Req::S3];
     let mut out = vec![];
     fn rec(kinds: &[Req], from: usize, left: usize, cur: &mut Vec<Req>, out: &mut Vec<Vec<Req>>) {
         if left == 0 {
@@ -605,7 +626,7 @@ pub fn check(tier: &str) -> i32 {
     report.cov("distinct_sequence_outcomes", json!(distinct_outcomes.into_inner().unwrap().len()));
     report.cov("sampled_burst_requests", json!(burst_requests));
     report.cov("sampled_burst_failures", json!(burst_failures));
-    report.cov("rule", json!("Alphabet: health, solve(x), solve(y) (instances with disjoint ids, so an answer identifies its request), malformed JSON, wrong content type, semantically invalid body (dangling route reference => panic in the loader), a body that loads but makes the solver panic (cost coefficient 10^15 => overflow guard of the flow model), solve(big) (instance y over a network of 460 further locations: a body above 2 MiB). (i) every sequence over the alphabet up to the stated length on a fresh real server, health probe after each element; (ii) for every multiset of solve-type requests {solve(x), solve(y), invalid, solver-panics} up to the stated size, every order of their enter/exit events consistent with program order (a panicking request has no exit), forced through the H3 gates; before each event a health probe, a malformed-JSON request and a wrong-content-type request are sent and judged (requests are parked inside the handler meanwhile). Each valid solve must get 200 and an answer passing the C01-C05 oracles for its own instance. Non-trivial = sequences mixing a faulty and a valid request + interleavings with two requests inside the handler at once."));
+    report.cov("rule", json!("Alphabet: health, solve(x), solve(y) (instances with disjoint ids, so an answer identifies its request), malformed JSON, wrong content type, semantically invalid body (dangling route reference => panic in the loader), a body that loads but makes the solver panic (cost coefficient 10^15 => overflow guard of the flow model), solve(big) (instance y over a network of 460 further locations: a body above 2 MiB), answer-panics (instance y moved to 0000-01-01 so that the first pull-out would leave before year 0: loads and solves, fails while the answer is written). (i) every sequence over the alphabet up to the stated length on a fresh real server, health probe after each element; (ii) for every multiset of solve-type requests {solve(x), solve(y), invalid, solver-panics, answer-panics} up to the stated size, every order of their enter/exit events consistent with program order (a panicking request has no exit), forced through the H3 gates; before each event a health probe, a malformed-JSON request and a wrong-content-type request are sent and judged (requests are parked inside the handler meanwhile). Each valid solve must get 200 and an answer passing the C01-C05 oracles for its own instance. Non-trivial = sequences mixing a faulty and a valid request + interleavings with two requests inside the handler at once."));
     report.cov("exhaustive", json!(true));
     report.cov("samples", json!([{"sequence": ["semantically-invalid", "solve(x)", "health"]}, {"requests": ["solve(x)", "solve(y)"], "order": ["enter 1", "enter 2", "exit 2", "exit 1"]}]));
     report.assume("interleavings are controlled at handler granularity only (tokio, hyper, rayon and the allocator are not instrumented; loom/shuttle cannot run the tokio I/O runtime); the free-running burst is sampling and carries no exhaustiveness claim");
